@@ -3,7 +3,7 @@ CONSTANTS
   Shapes0 <- MCShapes
   Acts = {"insert", "refine", "remove"}
   MaxDepth = 3
-  CurveP = {1,2,3,4}
+  CurveP = {1,2,3}
   CurveInt = 2
   SurfMode = 2
   VolMode = 1
